@@ -22,6 +22,46 @@ theorem foldl_complete_some (u f : Classes) (more : List Classes) :
   | nil => rfl
   | cons c cs ih => simp only [List.foldl_cons, Session.complete]; exact ih _ _
 
+/-- `stepStmt` reads only the observable class flags -/
+def Classes.norm (c : Classes) : Classes := ⟨c.pu, c.ifc, c.im, c.td, false, c.ca, false⟩
+
+theorem stepStmt_norm (C : Classes) (st : List Scope) (t : List Tok) : stepStmt C st t = stepStmt C.norm st t := rfl
+
+theorem walk_norm (C : Classes) (ts : List (List Tok)) : ∀ st, walk C st ts = walk C.norm st ts := by
+  induction ts with
+  | nil => intro st; rfl
+  | cons t ts ih => intro st; simp only [walk]; rw [← stepStmt_norm, ih]
+
+theorem discover_obs (a b : Classes) (h : a.obs = b.obs) (ss : List Item) : discover a ss = discover b ss := by
+  have hn : a.norm = b.norm := by
+    cases a; cases b
+    simp only [Classes.obs, Prod.mk.injEq] at h
+    obtain ⟨h1, h2, h3, h4, h5⟩ := h
+    simp [Classes.norm, h1, h2, h3, h4, h5]
+  have hp : a.pu = b.pu := by
+    have := congrArg (·.1) h; simpa [Classes.obs] using this
+  simp only [discover, discoverT, hp]
+  split
+  · rw [walk_norm a, walk_norm b, hn]
+  · rfl
+
+/-- while the file is still raw no request so far contained `ProgramUnitClass` -/
+theorem foldl_complete_none (more : List Classes) : ∀ (f c : Classes),
+    (more.foldl Session.complete ⟨f, none⟩).unitCls = none → (more.foldl (· ∪ ·) c).pu = c.pu := by
+  induction more with
+  | nil => intro f c _; rfl
+  | cons x xs ih =>
+    intro f c h
+    simp only [List.foldl_cons, Session.complete] at h ⊢
+    by_cases hx : x.pu = true
+    · simp only [hx, if_true] at h
+      rw [foldl_complete_some] at h
+      cases h
+    · have hx0 : x.pu = false := by simpa using hx
+      simp only [hx0] at h
+      have := ih _ (c ∪ x) h
+      rw [this, Classes.union_pu, hx0, Bool.or_false]
+
 /-- span invariant of the item stream -/
 def Item.Ok (i : Item) : Prop := i.l1 ≤ i.l2
 
